@@ -182,6 +182,11 @@ func checkC18(c *Ctx) {
 		"text T {\n    format(\"é{É}ß \\n  {}\\l\\p\\N \\\\ €\", 40)\n}\n",
 		"script S {\n    msgbox(format(\"{A}{B} {C D} {E\", numLines=0, maxLineLength=0))\n}\n",
 		"mapscripts M {\n    MAP_SCRIPT_ON_LOAD {}\n    MAP_SCRIPT_ON_FRAME_TABLE [\n        VAR_A, 0 {}\n    ]\n}\n",
+		// a comment as the very last thing, without a final newline, ending in a multi-byte character
+		"script S {\n    x\n}\n# fin é", "script S {\n    x\n}\n// 日本", "#é", "//€", "# a\n#\u00e9",
+		// format() texts whose last byte is a backslash (there are no string escapes), lone break codes
+		"text T {\n    format(\"Wait...\\\")\n}\n", "script S {\n    msgbox(format(\"a \\\\\"))\n    msgbox(format(\"\\\"))\n    msgbox(format(\"\\n\\\"))\n}\n",
+		"text T {\n    format(\"{\\\")\n}\ntext U {\n    format(\"x {A\\\")\n}\n",
 		// constants that name themselves or each other (what an editor sees mid-typing)
 		"const X = X\nscript S {\n    foo(X)\n    if (var(X) == X) {\n        bar\n    }\n}\n",
 		"const A = B\nconst B = A\nconst C = A\nscript S {\n    foo(A, B, C)\n    switch (var(A)) {\n        case B: x\n    }\n}\nmart M {\n    A\n    B\n}\n",
